@@ -431,10 +431,18 @@ Section WithBuiltins.
     | [] => BPanic
     end.
 
+  (* a qualified name written with a colon in front (`:a`): the tokenizer hands it over as an empty prefix and the local part.
+     The empty prefix of a name WITHOUT a colon has the span 0-0; the one of `:a` is the empty span where the colon stands, one
+     byte in front of the local part (and never at 0: a `<` or white space precedes it). *)
+  Definition leading_colon (prefix local : sstr) : bool :=
+    str_eqb (ss_text prefix) [] && negb (sp_start (ss_span prefix) =? 0)
+    && (sp_start (ss_span prefix) + 1 =? sp_start (ss_span local)).
+
   (* one token of the loop in `_parse` *)
   Definition bstep (st : bstate) (t : ptoken) : bres bstate :=
     match t with
     | TkAttribute prefix local value =>
+        if leading_colon prefix local then BErr (PEXmlParser (sp_start (ss_span local) - 1)) else
         if str_eqb (ss_text prefix) s_xmlns then
           do uri <- parse_attr_value value;
           (* Namespaces in XML 1.0, "No Prefix Undeclaring": xmlns:p="" is refused *)
@@ -457,11 +465,13 @@ Section WithBuiltins.
         BOk (with_spans st1 (extend_text_span (b_spans st1) n (ss_span text)))
         end
     | TkElementStart prefix local =>
+        if leading_colon prefix local then BErr (PEXmlParser (sp_start (ss_span local) - 1)) else
         BOk (with_eb st (Some {| eb_prefix := ss_text prefix; eb_name := ss_text local; eb_ns := []; eb_attrs := [];
                                  eb_prefix_span := ss_span prefix; eb_span := from_prefix_name prefix local |}))
     | TkEndOpen _ =>
         do (st1, _) <- open_element st; BOk st1
     | TkEndClose prefix local sp =>
+        if leading_colon prefix local then BErr (PEXmlParser (sp_start (ss_span local) - 1)) else
         do (st1, n) <- close_element st prefix local;
         BOk (with_spans st1 (span_add (b_spans st1) (KElEnd n) sp))
     | TkEndEmpty sp =>
